@@ -1,4 +1,5 @@
 //! Simulated worlds (engines).
+pub mod exchange;
 pub mod frost;
 pub mod hash;
 pub mod lms;
@@ -45,6 +46,7 @@ pub fn registry() -> Vec<Engine> {
         Engine { name: "hash", run: run_hash, hang_allowance_s: 60 },
         Engine { name: "frost", run: run_frost, hang_allowance_s: 300 },
         Engine { name: "lms", run: run_lms, hang_allowance_s: 300 },
+        Engine { name: "exchange", run: exchange::run, hang_allowance_s: 300 },
     ]
 }
 
